@@ -307,7 +307,9 @@ def must(ctx: Ctx) -> List[Ob]:
     def _remove_loop(n: N) -> bool:
         return n.kind == "iter" and _loop_calls(ctx, f, n.ast, {"Node.remove"})
 
-    _must(ctx, obs, f, "rejected nodes are removed through Node.remove()", _remove_loop, ["C01", "C08"], "filter must unregister what it drops")
+    # (C13: Node.remove() unlinks and unregisters in one step with no user callback in between - a predicate that raises
+    # later finds every node either fully present or fully gone)
+    _must(ctx, obs, f, "rejected nodes are removed through Node.remove()", _remove_loop, ["C01", "C08", "C13"], "filter must unregister what it drops")
     return obs
 
 
